@@ -94,6 +94,36 @@ theorem c20_delivery_outstanding (N k : Nat) (ops : List (Op α)) (s : St α) (h
     (run N s ops).got k ++ (run N s ops).q k = s.got k ++ s.q k ++ pubs ops :=
   c20_delivery N k ops s hn hk hs (fullCount_bounded N k ops s hn hk hs hb)
 
+/-- **Slow subscriber.**  Whatever the interleaving of publishes with the subscriber's connection goroutine
+taking events out of its channel (a monitor that is momentarily behind: the goroutine sits in its write while any
+number of further events are published), what the goroutine has been handed so far is a *prefix* of: what it had,
+what was buffered, and the published events minus exactly those that found the channel full — never a later event
+in place of an earlier one. -/
+theorem c20_slow_subscriber_prefix (N k : Nat) (ops : List (Op α)) (s : St α) (hn : s.keys.Nodup)
+    (hk : k ∈ s.keys) (hs : stays k ops = true) :
+    ∃ D, D.Sublist (pubs ops) ∧ (run N s ops).got k <+: s.got k ++ s.q k ++ D ∧
+      D.length + fullCount N k s ops = (pubs ops).length := by
+  obtain ⟨D, hD, hv, hl⟩ := c20_drop_only_when_full N k ops s hn hk hs
+  exact ⟨D, hD, ⟨(run N s ops).q k, hv⟩, hl⟩
+
+/-- … and with at most `N` events outstanding it is a prefix of the published sequence itself, all of it once the
+channel is empty again -/
+theorem c20_slow_subscriber_outstanding (N k : Nat) (ops : List (Op α)) (s : St α) (hn : s.keys.Nodup)
+    (hk : k ∈ s.keys) (hs : stays k ops = true) (hb : (s.q k).length + (pubs ops).length ≤ N) :
+    (run N s ops).got k <+: s.got k ++ s.q k ++ pubs ops ∧
+    ((run N s ops).q k = [] → (run N s ops).got k = s.got k ++ s.q k ++ pubs ops) := by
+  have h := c20_delivery_outstanding N k ops s hn hk hs hb
+  refine ⟨⟨(run N s ops).q k, h⟩, fun he => ?_⟩
+  rw [he, List.append_nil] at h
+  exact h
+
+/-- non-vacuity: the handler took the first event and sits in its write while three more are published; after two
+more reads it has been handed the first three, in order, and the fourth is still buffered -/
+example : (run 16 (St.empty (α := Nat)) [.sub 7, .pub 1, .recv 7, .pub 2, .pub 3, .pub 4, .recv 7, .recv 7]).got 7
+      = [1, 2, 3] ∧
+    (run 16 (St.empty (α := Nat)) [.sub 7, .pub 1, .recv 7, .pub 2, .pub 3, .pub 4, .recv 7, .recv 7]).q 7 = [4] := by
+  decide
+
 /-- the registered set stays duplicate free along every run from the empty notifier, so the
 hypothesis `Nodup` above holds in every reachable state -/
 theorem c20_reachable_nodup (N : Nat) (ops : List (Op α)) : (run N St.empty ops).keys.Nodup := by
